@@ -514,8 +514,8 @@ func checkC18Fault(sc *Scenario, budget int64, baseline map[string]Obs, acc *Acc
 		}
 		if ex.Fault == "deleted" || ex.Fault == "dir" || ex.Fault == "vanish" || ex.Fault == "dangling" {
 			for _, n := range ex.RefNames {
-				if strings.Contains(lo.Err, "'"+n+"'") || strings.Contains(lo.Err, `"`+n+`"`) {
-					return true
+				if len(n) >= 4 && strings.Contains(lo.Err, n) {
+					return true // the name as written in @use / @component (or its resolved alias), however it is quoted
 				}
 			}
 		}
